@@ -738,6 +738,20 @@ theorem sim_sched {s : St} {l : Life.S} (h : Sim s l) (pid tid t : Nat) (km : Bo
     (fun s2 th => by
       obtain ⟨a, _, c, _⟩ := schedThread_spec s2 th t (sampleStack s2.cfg km ip chain); exact ⟨a, c⟩)
 
+theorem sim_otherEvent {s : St} {l : Life.S} (h : Sim s l) (pid tid t : Nat) (km : Bool) (ip : Nat)
+    (chain : List Nat) :
+    Sim (step s (.otherEvent pid tid t km ip chain)) (Life.step l (.otherEvent pid tid t km ip chain)) := by
+  have e : step s (.otherEvent pid tid t km ip chain) =
+      commitThread (getThread (getByPid s pid).1 (getByPid s pid).2 tid).1
+        (getThread (getByPid s pid).1 (getByPid s pid).2 tid).2.1 tid
+        (otherEventThread (getThread (getByPid s pid).1 (getByPid s pid).2 tid).1
+          (getThread (getByPid s pid).1 (getByPid s pid).2 tid).2.2 pid tid t
+          (sampleStack (getThread (getByPid s pid).1 (getByPid s pid).2 tid).1.cfg km ip chain)) := rfl
+  rw [e]
+  simp only [Life.step]
+  exact sim_commit h pid tid (fun s2 th => otherEventThread s2 th pid tid t (sampleStack s2.cfg km ip chain))
+    (fun s2 th => ⟨rfl, rfl⟩)
+
 /-! ### One record: MMAP2 -/
 
 theorem step_mmap2 (s : St) (pid tid addr len pgoff : Nat) (exec : Bool) (path : String) (t : Nat) :
@@ -891,6 +905,7 @@ theorem sim_step {s : St} {l : Life.S} (h : Sim s l) (r : Rec) (hok : forkOk l r
   | switchIn pid tid t => exact sim_switchIn h pid tid t
   | switchOut pid tid t => exact sim_switchOut h pid tid t
   | sched pid tid t km ip chain => exact sim_sched h pid tid t km ip chain
+  | otherEvent pid tid t km ip chain => exact sim_otherEvent h pid tid t km ip chain
 
 theorem gStep_s (g : Life.G) (r : Rec) : (Life.gStep g r).s = Life.step g.s r := rfl
 
@@ -906,6 +921,7 @@ theorem gStep_ok {g : Life.G} {r : Rec} (h : (Life.gStep g r).ok = true) : g.ok 
   | switchIn pid tid t => trivial
   | switchOut pid tid t => trivial
   | sched pid tid t km ip chain => trivial
+  | otherEvent pid tid t km ip chain => trivial
   | comm pid tid name isExec t =>
     simp only [forkOk]
     intro he
